@@ -457,6 +457,8 @@ pub fn running_time(t: u8) -> RunningTime {
         2 => RunningTime::Short,
         3 => RunningTime::Average,
         4 => RunningTime::Long,
+        // user code that panics while the builder asks for the hint (the registration call unwinds)
+        9 => panic!("HSYS running_time panics"),
         _ => RunningTime::VeryLong,
     }
 }
